@@ -9,19 +9,175 @@ import (
 	"verif/sched"
 )
 
+// Pool and Map never park a goroutine on another instrumented thread (their
+// internal locks are only held across uninstrumented code), so they stay aliases.
+// Once, WaitGroup and Cond can make a thread wait for code that contains
+// scheduling points; under the cooperative scheduler that wait must itself be a
+// scheduling loop, otherwise the thread that holds the baton would park for ever.
 type (
-	WaitGroup = rs.WaitGroup
-	Once      = rs.Once
-	Pool      = rs.Pool
-	Map       = rs.Map
-	Cond      = rs.Cond
-	Locker    = rs.Locker
+	Pool   = rs.Pool
+	Map    = rs.Map
+	Locker = rs.Locker
 )
 
-func NewCond(l Locker) *Cond                                   { return rs.NewCond(l) }
-func OnceFunc(f func()) func()                                 { return rs.OnceFunc(f) }
-func OnceValue[T any](f func() T) func() T                     { return rs.OnceValue(f) }
-func OnceValues[T1, T2 any](f func() (T1, T2)) func() (T1, T2) { return rs.OnceValues(f) }
+// Once: the real Once does the bookkeeping; in controlled mode a second caller
+// yields until the first one has left f instead of parking on Once's mutex.
+type Once struct {
+	real    rs.Once
+	running bool // controlled mode only: some thread is inside f
+}
+
+func (o *Once) Do(f func()) {
+	if !sched.Active() {
+		o.real.Do(f)
+		return
+	}
+	sched.Point()
+	for o.running {
+		sched.Yield()
+	}
+	o.real.Do(func() { // nobody is inside: cannot block
+		o.running = true
+		defer func() { o.running = false }()
+		f()
+	})
+	sched.Point()
+}
+
+func OnceFunc(f func()) func() {
+	var (
+		o     Once
+		valid bool
+		p     any
+	)
+	return func() {
+		o.Do(func() {
+			defer func() {
+				if !valid {
+					p = recover()
+					panic(p)
+				}
+			}()
+			f()
+			valid = true
+		})
+		if !valid {
+			panic(p)
+		}
+	}
+}
+
+func OnceValue[T any](f func() T) func() T {
+	var v T
+	g := OnceFunc(func() { v = f() })
+	return func() T { g(); return v }
+}
+
+func OnceValues[T1, T2 any](f func() (T1, T2)) func() (T1, T2) {
+	var (
+		v1 T1
+		v2 T2
+	)
+	g := OnceFunc(func() { v1, v2 = f() })
+	return func() (T1, T2) { g(); return v1, v2 }
+}
+
+// WaitGroup: every Add/Done also goes to the real WaitGroup (which never blocks
+// there); only Wait differs: a scheduling loop in controlled mode.
+type WaitGroup struct {
+	real rs.WaitGroup
+	mu   rs.Mutex
+	n    int
+}
+
+func (w *WaitGroup) Add(delta int) {
+	if sched.Active() {
+		sched.Point()
+	}
+	w.mu.Lock()
+	w.n += delta
+	neg := w.n < 0
+	w.mu.Unlock()
+	if neg {
+		panic("sync: negative WaitGroup counter")
+	}
+	w.real.Add(delta)
+	if sched.Active() {
+		sched.Point()
+	}
+}
+
+func (w *WaitGroup) Done() { w.Add(-1) }
+
+func (w *WaitGroup) Wait() {
+	if !sched.Active() {
+		w.real.Wait()
+		return
+	}
+	for {
+		sched.Point()
+		w.mu.Lock()
+		n := w.n
+		w.mu.Unlock()
+		if n == 0 {
+			break
+		}
+		sched.Yield()
+	}
+	sched.Point()
+}
+
+// Cond: ticket based in controlled mode (Signal releases the oldest waiter).
+type Cond struct {
+	L Locker
+
+	once       rs.Once
+	real       *rs.Cond
+	next, wake uint64 // controlled mode only
+}
+
+func NewCond(l Locker) *Cond { return &Cond{L: l} }
+
+func (c *Cond) r() *rs.Cond {
+	c.once.Do(func() { c.real = rs.NewCond(c.L) })
+	return c.real
+}
+
+func (c *Cond) Wait() {
+	if !sched.Active() {
+		c.r().Wait()
+		return
+	}
+	t := c.next
+	c.next++
+	c.L.Unlock()
+	for c.wake <= t {
+		sched.Yield()
+	}
+	c.L.Lock()
+}
+
+func (c *Cond) Signal() {
+	if !sched.Active() {
+		c.r().Signal()
+		return
+	}
+	sched.Point()
+	if c.wake < c.next {
+		c.wake++
+	}
+	sched.Point()
+}
+
+func (c *Cond) Broadcast() {
+	if !sched.Active() {
+		c.r().Broadcast()
+		return
+	}
+	sched.Point()
+	c.wake = c.next
+	sched.Point()
+}
 
 // Mutex: in controlled mode `held` is only touched by the one runnable thread.
 type Mutex struct {
